@@ -487,6 +487,7 @@ impl ValidGrammar {
 
         let (mut user_specs, fallback_specs) = grammar.get_specializations(shell)?;
         let builtin_specs = make_builtin_specializations(shell);
+        let plain_definitions: UstrSet = nonterminal_definitions.keys().copied().collect();
 
         let mut unused_nonterminals: UstrMap<HumanSpan> = nonterminal_definitions
             .iter()
@@ -500,6 +501,7 @@ impl ValidGrammar {
                 &mut user_specs,
                 &builtin_specs,
                 &fallback_specs,
+                &plain_definitions,
                 &mut unused_nonterminals,
             );
         }
@@ -511,6 +513,7 @@ impl ValidGrammar {
             &mut user_specs,
             &builtin_specs,
             &fallback_specs,
+            &plain_definitions,
             &mut unused_nonterminals,
         );
 
@@ -734,6 +737,7 @@ fn specialize_nonterminals(
     user_specs: &mut UstrMap<UserSpec>,
     builtin_specs: &UstrMap<BuiltinSpec>,
     fallback_specs: &UstrMap<(Ustr, HumanSpan)>,
+    plain_definitions: &UstrSet,
     unused_nonterminals: &mut UstrMap<HumanSpan>,
 ) -> ExprId {
     match expr_arena[expr_id].clone() {
@@ -748,10 +752,13 @@ fn specialize_nonterminals(
             let (cmd, zsh_compadd) = if let Some(ref mut spec) = user_specs.get_mut(&nonterm) {
                 spec.used = true;
                 (spec.cmd, true)
-            } else if let Some(BuiltinSpec { cmd }) = builtin_specs.get(&nonterm) {
-                (*cmd, true)
             } else if let Some((cmd, _)) = fallback_specs.get(&nonterm) {
                 (*cmd, false)
+            } else if plain_definitions.contains(&nonterm) {
+                // A plain definition overrides the built-in meaning
+                return expr_id;
+            } else if let Some(BuiltinSpec { cmd }) = builtin_specs.get(&nonterm) {
+                (*cmd, true)
             } else {
                 return expr_id;
             };
@@ -797,6 +804,7 @@ fn specialize_nonterminals(
                 user_specs,
                 builtin_specs,
                 fallback_specs,
+                plain_definitions,
                 unused_nonterminals,
             );
             if child == new_child {
@@ -823,6 +831,7 @@ fn specialize_nonterminals(
                         user_specs,
                         builtin_specs,
                         fallback_specs,
+                        plain_definitions,
                         unused_nonterminals,
                     )
                 })
@@ -851,6 +860,7 @@ fn specialize_nonterminals(
                         user_specs,
                         builtin_specs,
                         fallback_specs,
+                        plain_definitions,
                         unused_nonterminals,
                     )
                 })
@@ -876,6 +886,7 @@ fn specialize_nonterminals(
                 user_specs,
                 builtin_specs,
                 fallback_specs,
+                plain_definitions,
                 unused_nonterminals,
             );
             if child == new_child {
@@ -898,6 +909,7 @@ fn specialize_nonterminals(
                 user_specs,
                 builtin_specs,
                 fallback_specs,
+                plain_definitions,
                 unused_nonterminals,
             );
             if child == new_child {
@@ -924,6 +936,7 @@ fn specialize_nonterminals(
                         user_specs,
                         builtin_specs,
                         fallback_specs,
+                        plain_definitions,
                         unused_nonterminals,
                     )
                 })
